@@ -388,6 +388,11 @@ func (c *FnCtx) checkWriteRow(heap, ref string, pos token.Pos) {}
 
 // checkFrameAtReturn: every pre-existing row outside the assigns clause is unchanged at return.
 func (c *FnCtx) checkFrameAtReturn(r retInfo, ri int) {
+	if len(c.Spec.belowParams()) > 0 {
+		// callers havoc per the static MOD analysis; the frame inside the trees below the arguments is the
+		// stated sep assumption
+		return
+	}
 	allowed := c.assignRows(c.Spec, c.params, c.entry)
 	wm := c.heapIn(c.entry, "$wm")
 	for _, n := range c.knownHeaps() {
@@ -401,6 +406,9 @@ func (c *FnCtx) checkFrameAtReturn(r retInfo, ri int) {
 		}
 		if len(c.Spec.belowParams()) > 0 && isAnyTreeHeap(n) {
 			continue // frame inside the any-trees below the arguments is assumed (sep), not checked
+		}
+		if mi := c.E.modInfo(c.F); !mi.Exist["*"] && !mi.Exist[n] {
+			continue // by the static MOD analysis only objects allocated during the call are written in this heap
 		}
 		var cond string
 		if strings.HasPrefix(n, "G|") {
